@@ -34,6 +34,7 @@ type scenario struct {
 	Second        string `json:"second_signal,omitempty"`          // a second signal (INT | TERM) ...
 	SecondAfterMs int    `json:"second_signal_after_ms,omitempty"` // ... this long after the first one
 	ListHoldMs    int    `json:"list_hold_ms,omitempty"`       // how long the list call in flight at the signal is held after it (default 150 ms; a long poll lasts up to 30 s)
+	CheckDelaysMs []int  `json:"check_delays_ms,omitempty"`    // how long the backend takes to answer health check i (default 0)
 	LateListed    bool   `json:"late_listed,omitempty"`        // the list call in flight at the signal is answered with a request ID ("req-late")
 	RequestBodyMs int    `json:"request_body_ms,omitempty"`    // the forwarded request is a POST whose body the proxy delivers over this long (the signal falls in between)
 	ListFault     string `json:"list_fault,omitempty"`      // "503": how the list call in flight at the signal ends (default: empty list). A dropped connection is not used: net/http re-sends an idempotent GET on its own, which the fake proxy cannot tell from a new poll
@@ -79,6 +80,9 @@ func runScenario(agentBin string, sc scenario) result {
 			res.HealthTimesMs = append(res.HealthTimesMs, ms())
 			res.HealthResults = append(res.HealthResults, ok)
 			mu.Unlock()
+			if i < len(sc.CheckDelaysMs) && sc.CheckDelaysMs[i] > 0 {
+				time.Sleep(time.Duration(sc.CheckDelaysMs[i]) * time.Millisecond)
+			}
 			if ok {
 				w.Write([]byte("ok"))
 			} else {
@@ -343,6 +347,8 @@ func main() {
 		scenario{Name: "unhealthy-t3", Kind: "unhealthy", Checks: []bool{T, F, F, T, F, F, F, T}, Threshold: 3},
 		scenario{Name: "unhealthy-t0-means-1", Kind: "unhealthy", Checks: []bool{T, T, T, F, T}, Threshold: 0},
 		scenario{Name: "healthy-forever", Kind: "unhealthy", Checks: []bool{T, F, T, F, T, F}, Threshold: 2},
+		// a failing check that takes longer than the interval, then a pass, then a quick failure: one after the other, never two in a row
+		scenario{Name: "slow-failing-check-then-pass-then-fail-t2", Kind: "unhealthy", Checks: []bool{T, F, T, F, T, T}, CheckDelaysMs: []int{0, 2500, 0, 0, 0, 0}, Threshold: 2},
 		// a backend that comes up late and then flaps: failures before the first passing check do not count
 		scenario{Name: "late-then-single-flap-t2", Kind: "unhealthy", Checks: []bool{F, T, F, T, T}, Threshold: 2},
 		scenario{Name: "late-2-then-two-flaps-t3", Kind: "unhealthy", Checks: []bool{F, F, T, F, F, T}, Threshold: 3},
